@@ -24,15 +24,17 @@ Oracle     : the serializability oracle of C01 on every explored schedule; on fa
 """
 from __future__ import annotations
 
-from typing import Any, Dict, List, Tuple
+import re
+from typing import Any, Dict, List, Optional, Tuple
 
 from harness.lib import coqbuild, protocol as P, sched as S
 from harness.props import c01
 
 LEVEL = "proof"
-THEOREMS = ["C08_ack_implies_validated", "C08_no_lost_update", "C08_fence", "C08_stolen_never_success",
+THEOREMS = ["C08_ack_implies_validated", "C08_no_lost_update", "C08_lost_lock_before_fence_conflict",
             "C08_cas_path_regenerated", "C08_failed_flip_reaction_regenerated", "C08_faulted_no_lost_update",
-            "C08_failed_write_never_acknowledged"]
+            "C08_failed_write_never_acknowledged", "C08_fallback_replaced_what_it_read", "C08_fallback_no_lost_update_refuted",
+            "C08_fallback_no_lost_update_partial", "C08_fallback_path_regenerated"]
 MANIFEST_ENTRY = {
     "level_text": "For CAS storage and ANY lock behaviour (exclusive, lease with arbitrary takeovers, or no exclusion at all) Coq "
                   "proves that every acknowledged flip replaced exactly the version its committer validated, so the committed "
@@ -226,6 +228,241 @@ def fault_runs(ctx, quick: bool) -> List[Tuple[Dict[str, Any], Any, P.CaseResult
     return runs
 
 
+# ---------------------------------------------------------------------------------------------------------------------
+# commit()'s fallback: the actors start on an UNUSABLE pointer (Model/PtrFallback.v)
+# ---------------------------------------------------------------------------------------------------------------------
+DAMAGES = ["missing", "garbage", "dangling", "empty"]
+RREQ = ["DS.Model.Commit", "DS.Model.PtrFallback"]
+_META_NAME = re.compile(r"^v(\d+)(?:-[0-9a-f]{8})?\.metadata\.json$")
+
+
+def _ptr_obj(result: Any) -> Optional[bytes]:
+    """What a pointer read returned, as the store's object: its bytes, or None for 'no such object'."""
+    return bytes(result) if isinstance(result, (bytes, bytearray)) else None
+
+
+def fallback_facts(res: P.CaseResult) -> Dict[str, Any]:
+    """Read off the storage log alone, per applied-looking pointer write of a committer: the pointer OBJECT its ETag-bearing
+    read under the lock returned, the metadata file it validated against and where that came from ("direct": named by the
+    bytes read with the ETag; "scan": commit()'s fallback refresh() found the pointer still unusable and scanned;
+    "repaired": the fallback's re-read found a usable pointer).  Also: every recovery by scanning that feeds a commit (base
+    read or fallback) and whether it returned the version named by the last applied pointer write."""
+    cur_name = res.initial["pointer"]
+    att: Dict[str, Dict[str, Any]] = {}
+    scan_pending: Dict[str, bool] = {}
+    reread: Dict[str, Optional[str]] = {}
+    writes: List[Dict[str, Any]] = []
+    inexact: List[Dict[str, Any]] = []
+    for idx, e in enumerate(res.log):
+        a, op, path, phase, result = e["actor"], e["op"], e["path"], e["phase"], e["result"]
+        if not a.startswith("A"):
+            continue
+        pcs = P.path_class(path)
+        in_commit = "MetadataManager.commit" in phase
+        in_refresh = "MetadataManager.refresh" in phase
+        in_tx = "Transaction.commit" in phase or "SnapshotManager.delete_snapshot" in phase
+        if op == "read_file_with_etag" and pcs == "hint" and in_commit:
+            att[a] = {"obj": _ptr_obj(result), "validated": None, "how": None}
+            reread[a] = None
+        elif op == "read_file" and pcs == "hint" and in_commit and in_refresh:
+            try:
+                reread[a] = result.decode("utf-8").strip() if isinstance(result, (bytes, bytearray)) else None
+            except UnicodeDecodeError:
+                reread[a] = None
+        elif op == "list_files" and "MetadataManager._recover_version_from_files" in phase and (in_commit or in_tx) and in_refresh:
+            scan_pending[a] = True
+        elif op == "read_file" and pcs == "meta" and (in_commit or in_tx):
+            base = path.rsplit("/", 1)[-1]
+            if in_refresh and scan_pending.get(a):
+                scan_pending[a] = False
+                if base != cur_name:
+                    inexact.append({"actor": a, "log_index": idx, "recovered": base, "last_written": cur_name})
+                if in_commit and a in att and att[a]["validated"] is None:
+                    att[a].update(validated=base, how="scan")
+            elif in_commit and a in att and att[a]["validated"] is None:
+                att[a].update(validated=base, how=("repaired" if in_refresh else "direct"))
+        elif op in ("write_file", "write_file_cas") and pcs == "hint" and result == "ok":
+            writes.append(dict(att.get(a, {"obj": None, "validated": None, "how": None}), actor=a))
+            cur_name = next((w2["path"].rsplit("/", 1)[-1] for w2 in reversed(res.log[:idx])
+                             if w2["actor"] == a and w2["op"] == "write_file" and P.path_class(w2["path"]) == "meta"), cur_name)
+    return {"writes": writes, "inexact": inexact}
+
+
+def fallback_oracle(case: Dict[str, Any], res: P.CaseResult) -> Optional[str]:
+    """Implementation-only judgement of the property on a run that starts on an unusable pointer, from the store's own
+    history of the pointer and the storage log:
+       * every applied pointer write replaced exactly the pointer OBJECT its committer had read with the ETag under the lock;
+         when that object named a version, that is the version the committer validated against; when it was unusable, the
+         committer validated what its fallback recovered by scanning (never the version of a pointer repaired in between);
+       * acknowledged <=> the store applied that committer's write, once; a retryable conflict => not applied;
+       * no acknowledged commit is lost: the rows of every acknowledged append are in the final table; and, when every
+         recovery scan returned the version named by the last applied pointer write, the final table is the serial replay of
+         the applied writes (the full judgement of the other runs).  A scan that returns another committer's UNPUBLISHED
+         metadata file (possible only while the lock excludes nobody and the pointer is unusable) is C10's subject: counted,
+         not judged here."""
+    if res.deadlock:
+        return f"deadlock: {res.deadlock}"
+    if "error" in res.final:
+        return f"final table unreadable: {res.final['error']}"
+    facts = fallback_facts(res)
+    applied = [h for h in (res.store.history if res.store is not None else []) if h["key"].endswith(P.HINT)]
+    if len(applied) != len(facts["writes"]):
+        return f"the store applied {len(applied)} pointer write(s), the clients' log shows {len(facts['writes'])} successful one(s)"
+    owners: List[str] = []
+    for h, w in zip(applied, facts["writes"]):
+        a = w["actor"]
+        owners.append(a)
+        repl = h["replaced"]
+        if (None if repl is None else bytes(repl)) != w["obj"]:
+            return (f"{a}'s pointer write replaced the object {repl!r} but the ETag {a} held came from a read that returned {w['obj']!r}")
+        try:
+            named = w["obj"].decode("utf-8").strip() if w["obj"] is not None else None
+        except UnicodeDecodeError:
+            named = None
+        if w["how"] == "direct":
+            if named != w["validated"]:
+                return f"{a} was acknowledged on a pointer that named {named!r} having validated against {w['validated']!r}"
+        elif w["how"] == "scan":
+            if named is not None and _META_NAME.match(named) and ("tbl/metadata/" + named) in {k for k in res.store.objects}:
+                return f"{a} validated a scanned version although the pointer it read named the existing file {named!r}"
+        else:
+            return (f"{a}'s pointer write was applied although its validated version came from {w['how']!r} "
+                    f"(the pointer object it had read: {w['obj']!r})")
+    ops = c01._fix_case(case)["ops"]
+    got_rows = sorted(r["x"] for r in res.final["rows"])
+    for a, (st, d) in sorted(res.outcomes.items()):
+        if not a.startswith("A"):
+            continue
+        n = owners.count(a)
+        if st == "ok" and d != "noop" and n != 1:
+            return f"{a}'s commit was acknowledged but the store applied {n} pointer write(s) of {a}"
+        if st != "ok" and "ConcurrentModification" in d and n != 0:
+            return f"{a} reported a retryable conflict although the store applied its pointer write ({n}x)"
+        op = ops[int(a[1:])]
+        if st == "ok" and op["kind"] == "append" and any(r["x"] not in got_rows for r in op["rows"]):
+            return f"{a}'s append was acknowledged but its rows are not in the final table {got_rows} (lost update)"
+    if not facts["inexact"]:
+        return c01.serial_oracle(case, res, flips=owners)
+    return None
+
+
+def fallback_runs(ctx, quick: bool) -> List[Tuple[Dict[str, Any], Any, P.CaseResult]]:
+    """Committers that START on an unusable pointer (absent / garbage / empty / dangling; history and metadata files intact):
+    bounded-preemption enumeration under a lock that excludes nobody, the real lease lock with a lease lapse + takeover at
+    every point of the first committer's commit, and random schedules of three committers."""
+    runs: List[Tuple[Dict[str, Any], Any, P.CaseResult]] = []
+    dmgs = DAMAGES[:3] if quick else DAMAGES
+    for di, dmg in enumerate(dmgs):
+        for oi, ops in enumerate(c01.OPSETS[:3] if quick else c01.OPSETS):
+            case = {"ops": ops, "clock": "tick", "topology": "separate", "backend": "s3cas", "lock": "grant_all", "pointer_damage": dmg}
+            for dev, res in c01.explore(ctx, case, 2, (22 if oi == 0 else 10) if quick else 250):
+                runs.append((case, list(dev), res))
+        ops = c01.OPSETS[di % 2]
+        case = {"ops": ops, "clock": "tick", "topology": "separate", "backend": "s3cas", "lock": "real", "pointer_damage": dmg,
+                "clock_actor": {"jumps": 1, "ms": 61000}}
+        base = P.run_case(ctx.scratch, c01._fix_case(case), c01.dev_chooser({}), tag="c08u")
+        runs.append((case, [], base))
+        n0 = sum(1 for a in base.schedule if a == "A0")
+        for i in range(1, n0 + 1, 2 if quick else 1):
+            dev = [(i, "K"), (i + 1, "K"), (i + 2, "A1")]
+            runs.append((case, dev, P.run_case(ctx.scratch, c01._fix_case(case), c01.dev_chooser({int(k): v for k, v in dev}), tag="c08u")))
+        if not quick:
+            for dev, res in c01.explore(ctx, case, 2, 150):
+                runs.append((case, list(dev), res))
+    for i in range(9 if quick else 240):
+        ops = c01.OPSETS3[i % len(c01.OPSETS3)]
+        case = {"ops": ops, "clock": ctx.rng.choice(["tick", "coarse", "frozen"]), "topology": "separate", "backend": "s3cas",
+                "lock": "grant_all", "pointer_damage": dmgs[i % len(dmgs)], "s3_conflict": ctx.rng.choice(["412", "409", "alt"])}
+        seed = ctx.rng.randrange(1 << 30)
+        runs.append((case, [("random", seed, 0.4)], P.run_case(ctx.scratch, c01._fix_case(case), _chooser_for([("random", seed, 0.4)]), tag="c08ur")))
+    return runs
+
+
+def _rev(ai: int, k: str) -> str:
+    parts = k.split()
+    if parts[0] == "RDamage":
+        return "RDamage"
+    if parts[0] == "RBegin":
+        return f"RBegin {ai}%nat {parts[1]}%nat"
+    if parts[0] == "RReadBad":
+        return f"RReadBad {ai}%nat {parts[1]}%nat"
+    if parts[0] == "RRefresh":
+        rc = f"(RScan {parts[2]}%nat)" if parts[1] == "scan" else f"(RGood {parts[2]}%nat)"
+        return f"RRefresh {ai}%nat {rc} {parts[3]}"
+    if parts[0] == "RFlip":
+        return f"RFlip {ai}%nat {parts[1]}"
+    return f"RE {{| e_actor := {ai}%nat; e_kind := {c01._nat_args(k)} |}}"
+
+
+def rmodel_expr(case: Dict[str, Any], res: P.CaseResult, events: List[Tuple[int, str]]) -> str:
+    n = len(case["ops"])
+    kinds = " ".join(f"| {i}%nat => {c01.kind_of(op)[0]}" for i, op in enumerate(case["ops"]))
+    maxrs = " ".join(f"| {i}%nat => {c01.kind_of(op)[1]}%nat" for i, op in enumerate(case["ops"]))
+    lu0 = res.initial["meta"]["last_updated_ms"]
+    cfgs = "{| cas := true; lockkind := %s |}" % ("GrantAll" if case.get("lock") == "grant_all" else "Lease")
+    evs = "[" + "; ".join(_rev(ai, k) for ai, k in events) + "]"
+    return (f"match rrun_strict {cfgs} false (rinit (init_world {{| m_ops := []; m_cur := 1; m_lu := {lu0} |}} "
+            f"(fun a => match a with {kinds} | _ => KKeep end) (fun a => match a with {maxrs} | _ => 1%nat end))) {evs} 0%nat with "
+            f"| inl X => (1, rsummary X {n}%nat) | inr i => (0, ((i, [], [], []), (0%Z, 0%nat), [], 0%nat)) end")
+
+
+def check_fallback_runs(ctx, name: str, runs: List[Tuple[Dict[str, Any], Any, P.CaseResult]]) -> None:
+    exprs, kept, bad = [], [], []
+    seen_keys = set()
+    n_inexact = n_scan_commits = n_refused = 0
+    for case, dev, res in runs:
+        ctx.count(1, (name, repr(case["ops"]), case.get("lock"), case.get("pointer_damage"), tuple(res.schedule)))
+        why = fallback_oracle(case, res)
+        if why:
+            key = (f"ptr-unusable:{case.get('pointer_damage')}:{case.get('lock')}:"
+                   + "+".join(o["kind"] + ("-" + o["which"] if "which" in o else "") for o in case["ops"]))
+            if key not in seen_keys:
+                seen_keys.add(key)
+                ctx.violation(key, why, {"case": c01._case_json(case), "deviations": list(dev), "schedule": res.schedule, "outcomes": res.outcomes})
+        facts = fallback_facts(res)
+        n_inexact += 1 if facts["inexact"] else 0
+        n_scan_commits += sum(1 for w in facts["writes"] if w["how"] == "scan")
+        n_refused += sum(1 for e in res.log if e["op"] == "write_file_cas" and P.path_class(e["path"]) == "hint" and e["result"] != "ok")
+        try:
+            events, vids, _notes = P.project(res, len(case["ops"]), cas=True, lease=(case.get("lock", "real") == "real"), recover=True)
+        except P.Nonconforming as e:
+            bad.append({"case": c01._case_json(case), "deviations": list(dev), "schedule": res.schedule, "nonconforming": str(e)})
+            continue
+        exprs.append(rmodel_expr(case, res, events))
+        kept.append((case, dev, res, events, vids, facts))
+    vals = coqbuild.coq_eval(RREQ, exprs, chunk=60) if exprs else []
+    for (case, dev, res, events, vids, facts), val in zip(kept, vals):
+        ok, (ptr_or_idx, _ops_final, hist, codes, phys, repl, inexact) = val      # left-nested pairs print flat
+        if ok != 1:
+            i = ptr_or_idx
+            bad.append({"case": c01._case_json(case), "deviations": list(dev), "schedule": res.schedule, "rejected_event_index": i,
+                        "event": events[i] if i < len(events) else None, "events": events[:i + 1][-8:]})
+            continue
+        final_vid = vids.get(res.final.get("pointer"), -1)
+        exp_codes = [1 if res.outcomes[f"A{i}"][0] == "ok" and res.outcomes[f"A{i}"][1] != "noop" else
+                     (2 if "ConcurrentModification" in res.outcomes[f"A{i}"][1] else 0) for i in range(len(case["ops"]))]
+        hows = {"direct": 0, "scan": 1, "repaired": 2}
+        exp_repl = []
+        for w in facts["writes"]:
+            try:
+                named = w["obj"].decode("utf-8").strip() if w["obj"] is not None else None
+            except UnicodeDecodeError:
+                named = None
+            robj = (0, vids[named]) if (w["how"] == "direct" and named in vids) else (1, 0)
+            exp_repl.append((int(w["actor"][1:]), robj, vids.get(w["validated"], -1), hows.get(w["how"], -1)))
+        got_repl = [(a, tuple(p), v, h) for (a, p, v, h) in repl]
+        if (ptr_or_idx != final_vid or tuple(phys) != (0, final_vid) or [a for (_v, a) in hist] != [r[0] for r in exp_repl]
+                or list(codes) != exp_codes or got_repl != exp_repl or inexact != len(facts["inexact"])):
+            bad.append({"case": c01._case_json(case), "deviations": list(dev), "schedule": res.schedule,
+                        "model": {"ptr": ptr_or_idx, "phys": phys, "hist": hist, "codes": codes, "repl": repl, "inexact": inexact},
+                        "impl": {"ptr": final_vid, "repl": exp_repl, "codes": exp_codes, "inexact": facts["inexact"], "outcomes": res.outcomes}})
+    ctx.stats["unusable_pointer_schedules"] = len(runs)
+    ctx.stats["commits_validated_by_scan"] = n_scan_commits
+    ctx.stats["conditional_writes_refused_on_unusable_pointer_runs"] = n_refused
+    ctx.stats["runs_where_a_scan_returned_an_unpublished_version"] = n_inexact
+    ctx.correspondence(name, len(runs), bad)
+
+
 def _xev(ai: int, k: str) -> str:
     if k.startswith("XFlipErr"):
         return f"XFlipErr {ai}%nat {k.split()[1]}"
@@ -354,11 +591,13 @@ def run(ctx) -> None:
         runs.append((case, [("random", seed, 0.4)], res))
     # the pointer write itself fails (request level), at every interleaving position with the other committer
     fruns = fault_runs(ctx, quick)
+    # commit()'s fallback: the committers start on an unusable pointer
+    uruns = fallback_runs(ctx, quick)
     # implementation-level statement of "a committer that lost its lock before the commit point reports a retryable
     # conflict, never success": with the real lease lock, once another committer has taken the lock over, the fence of the
     # previous holder (its is_held() just before the pointer write) must answer False -- judged on the storage log alone
     stolen_fences = 0
-    for case, dev, res in runs + fruns:
+    for case, dev, res in runs + fruns + uruns:
         if case.get("lock") != "real":
             continue
         holder = None
@@ -385,6 +624,10 @@ def run(ctx) -> None:
     if runs:
         c, d, r = runs[len(runs) // 3]
         ctx.sample({"case": c01._case_json(c), "schedule": r.schedule, "outcomes": r.outcomes})
+    try:
+        check_fallback_runs(ctx, "s3cas-unusable-pointer-trace", uruns)
+    except RuntimeError as e:
+        ctx.proof_problems.append("model evaluation failed (unusable pointer): " + str(e)[:800])
     try:
         check_fault_runs(ctx, "s3cas-ptr-fault-trace", fruns)
     except RuntimeError as e:
@@ -423,6 +666,7 @@ def replay(ctx, payload) -> int:
         bad = _fence_after_takeover(res)
         print("replay:", f"STILL FAILS: fence answered True after a takeover for {bad}" if bad else "passes now")
         return 1 if bad else 0
-    why = ack_oracle(c["case"], res) if key.startswith("ptr-fault") else c01.serial_oracle(c["case"], res)
+    why = (ack_oracle(c["case"], res) if key.startswith("ptr-fault") else
+           fallback_oracle(c["case"], res) if key.startswith("ptr-unusable") else c01.serial_oracle(c["case"], res))
     print("replay:", "STILL FAILS: " + why if why else "passes now")
     return 1 if why else 0
